@@ -9,4 +9,4 @@ Extraction "../ocaml/gen/jsonesc_model.ml" wire_anchor
   JsonEsc.escape_key_toml JsonEsc.is_safe_toml_plain_gen EscTable.toml_plain_extra
   JsonEsc.is_safe_yaml_plain JsonEsc.is_safe_yaml_plain_gen EscTable.yaml_special_src
   JsonEsc.in_ranges EscTable.yaml_plain_ranges JsonEsc.yaml_plain_char
-  JsonDec.lex_string.
+  JsonDec.lex_string JsonDec.yaml12_core_nonstring.
